@@ -115,3 +115,6 @@ func VV(m MaybeFloat) Float {
 //@   props C14
 //@   modifies nothing
 //@   trusted "frame only: converts four numbers"
+//@ func (Properties).GetFontSize
+//@   props C04
+//@   pure refs
